@@ -13,6 +13,8 @@ Structural clauses decided:
     NotMatched otherwise - in the unified glue and in the tcp / http result builders
  R5 constructor: matchers exist iff matcher_enabled && protocol enabled; caches sized max_connections iff enabled
  R6 label conversion: name<-name, family<-class, variant<-flavor, kind<-ty in all three output types
+ R1 (also) TW: the IPv4 and IPv6 copies of every per-packet function route sides / roles / lookups identically
+ R4 (also) the request diagnosis is get_diagnostic(user_agent, ..) in every configuration
 """
 from ..engine import cfg as C
 from ..engine import q as Q
